@@ -212,7 +212,31 @@ pub fn any_allocator<const N: usize, const M: usize>(recycle: bool) -> (Entities
 }
 
 /// Builds an arbitrary allocator over `N` indices and assumes `inv`.
-pub fn any_allocator_fix<const N: usize, const M: usize>(recycle: bool, fix: Fix) -> (EntitiesRes, View<M>) {
+/// The explicit parts of a symbolic allocator state.
+pub struct Parts<const N: usize, const M: usize> {
+    pub slots: [VerifSlot; N],
+    pub cache: [Index; M],
+    pub gen_len: usize,
+    pub cache_vec_len: usize,
+    pub cache_len: usize,
+    pub max_id: usize,
+}
+
+impl<const N: usize, const M: usize> Parts<N, M> {
+    pub fn build(&self) -> EntitiesRes {
+        EntitiesRes::verif_from_parts(
+            N + 2,
+            self.gen_len,
+            &self.slots,
+            &self.cache,
+            self.cache_vec_len,
+            self.cache_len,
+            self.max_id,
+        )
+    }
+}
+
+pub fn any_parts<const N: usize, const M: usize>(fix: Fix) -> Parts<N, M> {
     assert!(M == N + 1);
     let mut slots = [VerifSlot {
         id: 0,
@@ -273,15 +297,12 @@ pub fn any_allocator_fix<const N: usize, const M: usize>(recycle: bool, fix: Fix
     assert!(cache_vec_len <= M);
     let max_id = nd::usize();
     nd::assume(max_id <= N);
-    let ent = EntitiesRes::verif_from_parts(
-        N + 2,
-        gen_len,
-        &slots,
-        &cache,
-        cache_vec_len,
-        cache_len,
-        max_id,
-    );
+    Parts { slots, cache, gen_len, cache_vec_len, cache_len, max_id }
+}
+
+pub fn any_allocator_fix<const N: usize, const M: usize>(recycle: bool, fix: Fix) -> (EntitiesRes, View<M>) {
+    let parts = any_parts::<N, M>(fix);
+    let ent = parts.build();
     let v: View<M> = view(&ent);
     nd::assume(inv(&v, recycle));
     // generation overflow after 2^31 reuses of one index is outside the claim
@@ -671,4 +692,5 @@ fn join_state_body<const N: usize, const M: usize>() {
 }
 
 pub mod hist;
+pub mod det;
 include!("variants.rs");
